@@ -29,7 +29,8 @@ RFF_DEN = 840  # lcm(1..8): data values after sky subtraction stay within -8..8
 LOG_TABLE = {e: int(round(S * math.log(2.0 * math.pi * 4.0 ** e))) for e in (-1, 0, 1)}
 
 INVARIANTS = ["SlimModeEqualsNativeMode", "MaskedValuesNeverMatter", "ElementwiseDefinitions", "SkyShiftsDataOnly", "Homogeneity",
-              "ReductionSelectsRegularisedParameters", "RegTermUnchangedByReduction", "DeterminantsPositive", "FigureOfMeritChoice"]
+              "ReductionSelectsRegularisedParameters", "RegTermUnchangedByReduction", "DeterminantsPositive", "FigureOfMeritChoice",
+              "DatasetHistoryNeverMatters", "PredecessorDiffers"]
 
 MC_CFG = """CONSTANTS
   FullShapes <- MCFullShapes
@@ -48,6 +49,9 @@ MC_CFG = """CONSTANTS
   RegKinds <- MCRegKinds
   SPats <- MCSPats
   JunkFills <- MCJunkFills
+  HistShapes <- MCHistShapes
+  HistKinds <- MCHistKinds
+  Memoise = %s
 SPECIFICATION Spec
 """
 MC_CFG_TAIL = "".join(f"INVARIANT {x}\n" for x in INVARIANTS)
@@ -69,6 +73,9 @@ TRACE_CFG = """CONSTANTS
   RegKinds = {}
   SPats = {}
   JunkFills = {}
+  HistShapes = {}
+  HistKinds = {}
+  Memoise = FALSE
 SPECIFICATION TraceSpec
 POSTCONDITION TraceAccepted
 """ % S
@@ -110,6 +117,8 @@ def mc_defs(b, patterns):
         "MCRegKinds == " + _tla_set(f"[z |-> {z}, c |-> {c}]" for z, c in b["reg_kinds"]),
         "MCSPats == " + _tla_set(_tla_seq(str(x) for x in sp) for sp in b["reconstruction_patterns"]),
         "MCJunkFills == " + _tla_set(str(j) for j in b["junk_fills"]),
+        "MCHistShapes == " + _tla_set(f"<<{h},{w}>>" for h, w in b["history_shapes"]),
+        "MCHistKinds == " + _tla_set(f'"{k}"' for k in b["history_kinds"]),
     ])
 
 
@@ -201,8 +210,9 @@ def _native(h, w, u, slim_vals, junk_vals):
     return a.reshape(h, w)
 
 
-def build_fit(h, w, u, d, m_real, e, sky, mode, junk, inversion):
-    """-> FitImaging subclass instance.  d, e integers per unmasked pixel; m_real floats per unmasked pixel."""
+def make_parts(h, w, u, d, m_real, e, mode, junk):
+    """Real arrays / dataset for one abstract dataset.  -> dict(mask, ds, model, use, arr) where arr(values, which) builds an
+    array in the same storage format (which in data / noise / model selects the junk that fills masked cells)."""
     import autoarray as aa
 
     msk = np.ones(h * w, dtype=bool)
@@ -212,11 +222,11 @@ def build_fit(h, w, u, d, m_real, e, sky, mode, junk, inversion):
     dv = np.asarray(d, dtype=float)
     nv = 2.0 ** np.asarray(e, dtype=float)
     mv = np.asarray(m_real, dtype=float)
-    dm = aa.DatasetModel(background_sky_level=float(sky)) if sky != 0 or junk == 1 else None
     if mode == "slim":
+        arr = lambda v, which: aa.Array2D(values=np.asarray(v, dtype=float), mask=mask)
         if junk == 0:
-            ds = aa.Imaging(data=aa.Array2D(values=dv, mask=mask), noise_map=aa.Array2D(values=nv, mask=mask))
-            model = aa.Array2D(values=mv, mask=mask)
+            ds = aa.Imaging(data=arr(dv, "data"), noise_map=arr(nv, "noise"))
+            model = arr(mv, "model")
         else:
             # the usual route: a full frame (values everywhere) masked afterwards
             jd, jm, _ = JUNK[1]
@@ -227,16 +237,104 @@ def build_fit(h, w, u, d, m_real, e, sky, mode, junk, inversion):
         use = False
     else:
         if junk == 0:
-            mk = lambda v: aa.Array2D(values=_native(h, w, u, v, None), mask=mask, store_native=True)
-            ds = aa.Imaging(data=mk(dv), noise_map=mk(nv))
-            model = mk(mv)
+            arr = lambda v, which: aa.Array2D(values=_native(h, w, u, np.asarray(v, dtype=float), None), mask=mask, store_native=True)
         else:
-            jd, jm, jn = JUNK[junk]
-            mk = lambda v, j: aa.Array2D(values=_native(h, w, u, v, j), mask=mask, store_native=True, skip_mask=True)
-            ds = aa.Imaging(data=mk(dv, jd), noise_map=mk(nv, jn))
-            model = mk(mv, jm)
+            jk = dict(zip(("data", "model", "noise"), JUNK[junk]))
+            arr = lambda v, which: aa.Array2D(values=_native(h, w, u, np.asarray(v, dtype=float), jk[which]), mask=mask, store_native=True,
+                                              skip_mask=True)
+        ds = aa.Imaging(data=arr(dv, "data"), noise_map=arr(nv, "noise"))
+        model = arr(mv, "model")
         use = True
-    return aa.m.MockFitImaging(dataset=ds, use_mask_in_fit=use, model_data=model, inversion=inversion, dataset_model=dm)
+    return {"mask": mask, "ds": ds, "model": model, "use": use, "arr": arr}
+
+
+def _fit_on(ds, parts, sky, junk, inversion, **kw):
+    import autoarray as aa
+
+    dm = aa.DatasetModel(background_sky_level=float(sky)) if sky != 0 or junk == 1 else None
+    return aa.m.MockFitImaging(dataset=ds, use_mask_in_fit=parts["use"], model_data=kw.pop("model", parts["model"]), inversion=inversion,
+                               dataset_model=dm, **kw)
+
+
+def build_fit(h, w, u, d, m_real, e, sky, mode, junk, inversion):
+    """-> FitImaging subclass instance.  d, e integers per unmasked pixel; m_real floats per unmasked pixel."""
+    parts = make_parts(h, w, u, d, m_real, e, mode, junk)
+    return _fit_on(parts["ds"], parts, sky, junk, inversion)
+
+
+# ---- dataset histories (gamma of PredDataset / Precede in Fit.tla) -------------------------------------------
+SAME_FRAME_KINDS = ("same-object-other-noise-map", "copy-with-reassigned-arrays", "same-object-reassigned-arrays")
+HIST_KINDS = SAME_FRAME_KINDS + ("derived-by-apply-mask", "derived-by-trimming")
+
+
+def alt_e(e):
+    return [-1] * len(e) if all(x == 1 for x in e) else [1 if x == 1 else x + 1 for x in e]
+
+
+def fill_e(lin):
+    return (lin % 3) - 1
+
+
+def fill_d(lin):
+    return (2 * lin) % 6 - 2
+
+
+def fill_m(lin):
+    return (lin % 4) - 1
+
+
+def pred_dataset(kind, h, w, u, d, m, e):
+    """the dataset fitted BEFORE the judged one (mirror of PredDataset in Fit.tla, plus data and model values)"""
+    if kind in SAME_FRAME_KINDS:
+        d0 = list(d) if kind == "same-object-other-noise-map" else [3 - x for x in d]
+        return {"h": h, "w": w, "u": list(u), "d": d0, "m": list(m), "e": alt_e(e)}
+    if kind == "derived-by-apply-mask":
+        pos = {c: k for k, c in enumerate(u)}
+        cells = list(range(h * w))
+        return {"h": h, "w": w, "u": cells, "d": [d[pos[c]] if c in pos else fill_d(c) for c in cells],
+                "m": [m[pos[c]] if c in pos else fill_m(c) for c in cells], "e": [e[pos[c]] if c in pos else fill_e(c) for c in cells]}
+    H2, W2 = h + 2, w + 2
+    inner = {(c // w + 1) * W2 + (c % w + 1): k for k, c in enumerate(u)}
+    ring = [i * W2 + j for i in range(H2) for j in range(W2) if (i in (0, H2 - 1) or j in (0, W2 - 1)) and (i * W2 + j) % 2 == 0]
+    u0 = sorted(set(inner) | set(ring))
+    return {"h": H2, "w": W2, "u": u0, "d": [d[inner[c]] if c in inner else fill_d(c) for c in u0],
+            "m": [m[inner[c]] if c in inner else fill_m(c) for c in u0], "e": [e[inner[c]] if c in inner else fill_e(c) for c in u0]}
+
+
+def history_fits(kind, h, w, u, d, m_real, e, sky, mode, junk):
+    """-> [(earlier fit, its own abstract dataset), (judged fit, None)]; the earlier fit must be READ before the judged fit is built
+    where the history says so - the caller reads each fit as soon as it is yielded (generator)."""
+    import copy
+    import autoarray as aa
+
+    p = pred_dataset(kind, h, w, u, [int(x) for x in d], [int(round(x)) for x in m_real], list(e))
+    if kind == "same-object-other-noise-map":
+        parts = make_parts(h, w, u, d, m_real, e, mode, junk)
+        yield _fit_on(parts["ds"], parts, sky, junk, None, noise_map=parts["arr"](2.0 ** np.asarray(p["e"], dtype=float), "noise")), p
+        yield _fit_on(parts["ds"], parts, sky, junk, None), None
+    elif kind in ("copy-with-reassigned-arrays", "same-object-reassigned-arrays"):
+        parts = make_parts(h, w, u, p["d"], p["m"], p["e"], mode, junk)
+        yield _fit_on(parts["ds"], parts, sky, junk, None), p
+        ds = copy.copy(parts["ds"]) if kind.startswith("copy") else parts["ds"]
+        ds.data = parts["arr"](np.asarray(d, dtype=float), "data")
+        ds.noise_map = parts["arr"](2.0 ** np.asarray(e, dtype=float), "noise")
+        yield _fit_on(ds, parts, sky, junk, None, model=parts["arr"](np.asarray(m_real, dtype=float), "model")), None
+    elif kind == "derived-by-apply-mask":
+        full = make_parts(p["h"], p["w"], p["u"], p["d"], p["m"], p["e"], "slim", 0)
+        yield _fit_on(full["ds"], full, sky, 0, None), p
+        own = make_parts(h, w, u, d, m_real, e, "slim", 0)
+        yield _fit_on(full["ds"].apply_mask(mask=own["mask"]), own, sky, 0, None), None
+    else:  # derived-by-trimming
+        H2, W2 = p["h"], p["w"]
+        big = aa.Imaging(data=aa.Array2D.no_mask(values=_native(H2, W2, p["u"], np.asarray(p["d"], dtype=float), [7.0, -3.0]), pixel_scales=1.0),
+                         noise_map=aa.Array2D.no_mask(values=_native(H2, W2, p["u"], 2.0 ** np.asarray(p["e"], dtype=float), JUNK_POSITIVE_NOISE),
+                                                      pixel_scales=1.0))
+        bp = make_parts(H2, W2, p["u"], p["d"], p["m"], p["e"], "slim", 0)
+        ds0 = big.apply_mask(mask=bp["mask"])
+        yield _fit_on(ds0, bp, sky, 0, None), p
+        own = make_parts(h, w, u, d, m_real, e, "slim", 0)
+        ds = ds0.trimmed_after_convolution_from(kernel_shape=(3, 3))
+        yield _fit_on(ds, own, sky, 0, None), None
 
 
 # read orders: the definitions do not depend on which quantity a caller looks at first, nor on how often
@@ -409,13 +507,25 @@ def records_for(src):
             raise core.MachineryError("mapped reconstructed image does not have one value per unmasked pixel")
     else:
         m_real = np.asarray(src["m"], dtype=float)
-    recs, refs = [], {}
-    # every (mode, junk) evaluation gets a read order; "twice" reads everything a second time (the record carries the LAST
-    # read, `stable` says the reads agree bit for bit) and is followed by a second fit built on the SAME dataset object
-    evals = []
-    for j, (mode, junk) in enumerate(src["modes"]):
-        order = ORDER_NAMES[(src.get("sid", 0) + j) % len(ORDER_NAMES)]
+    recs = []
+    # src["plan"]: evaluations {mode, junk, order, second, hist}.  Orders rotate over instances and evaluations; "twice" reads
+    # everything a second time (the record carries the LAST read, `stable` says the reads agree bit for bit); `second` builds a
+    # second fit on the SAME dataset object afterwards; `hist` runs the evaluation after a dataset history (the earlier fit is
+    # read completely first and judged against ITS arrays).
+    evals = []  # (judged dataset dict, mode, junk, order, nth, hist, step, raw, stable, same, exception)
+    own = {"h": h, "w": w, "u": list(u), "d": list(d), "e": list(e)}
+    for pl in src["plan"]:
+        mode, junk, order, hist = pl["mode"], pl["junk"], pl["order"], pl.get("hist", "none")
         try:
+            if hist != "none":
+                step = 0
+                for fit, pred in history_fits(hist, h, w, u, d, m_real, e, sky, mode, junk):
+                    # (the planner gives derived histories to slim, junk-free evaluations only)
+                    raw = read_fit(fit, order if pred is None else "canonical")
+                    evals.append((pred if pred is not None else own, mode, junk, order if pred is None else "canonical", 1, hist, step, raw,
+                                  True, True, None))
+                    step += 1
+                continue
             fit = build_fit(h, w, u, d, m_real, e, sky, mode, junk, inversion)
             raw = read_fit(fit, order)
             stable = True
@@ -425,39 +535,42 @@ def records_for(src):
                 raw = raw2
             if inversion is not None and invrec is None:
                 invrec = read_inversion(inversion, objs_abs, lat, sc, sx, ss)
-            evals.append((mode, junk, order, 1, raw, stable, None))
-            if order == "twice":
+            same = True
+            if junk != 0:
+                # bit-for-bit against a clean evaluation of the same mode (not recorded again)
+                ref = read_fit(build_fit(h, w, u, d, m_real, e, sky, mode, 0, inversion), "canonical")
+                same = bool(same_as(raw, ref, u if mode == "native" else None))
+            evals.append((own, mode, junk, order, 1, "none", 0, raw, stable, same, None))
+            if pl.get("second"):
                 import autoarray as aa
 
                 fit_b = aa.m.MockFitImaging(dataset=fit.dataset, use_mask_in_fit=fit.use_mask_in_fit, model_data=fit.model_data,
                                             inversion=inversion, dataset_model=fit.dataset_model)
-                evals.append((mode, junk, "canonical", 2, read_fit(fit_b, "canonical"), True, None))
+                evals.append((own, mode, junk, "canonical", 2, "none", 0, read_fit(fit_b, "canonical"), True, True, None))
         except Exception as ex:  # the property gives no licence to raise on a valid dataset
-            evals.append((mode, junk, order, 1, None, True, ex))
-    for mode, junk, order, nth, raw, stable, ex in evals:
-        rec = {"p": "C08", "api": "fit", "h": h, "w": w, "u": list(u), "mode": mode, "junk": int(junk), "mk": mk, "d": list(d), "e": list(e),
-               "sky": int(sky), "hasinv": inversion is not None, "raised": "", "same": True, "order": order, "nth": nth, "stable": bool(stable)}
+            evals.append((own, mode, junk, order, 1, hist, 1 if hist != "none" else 0, None, True, True, ex))
+    for jd, mode, junk, order, nth, hist, step, raw, stable, same, ex in evals:
+        is_pred = hist != "none" and step == 0
+        has_inv = inversion is not None and hist == "none"
+        rec = {"p": "C08", "api": "fit", "h": jd["h"], "w": jd["w"], "u": list(jd["u"]), "mode": mode, "junk": int(junk), "mk": mk,
+               "d": list(jd["d"]), "e": list(jd["e"]), "sky": int(sky), "hasinv": has_inv, "raised": "", "same": bool(same), "order": order,
+               "nth": nth, "stable": bool(stable), "hist": hist, "step": int(step)}
         if mk == "int":
-            rec["m"] = [int(x) for x in src["m"]]
+            rec["m"] = [int(x) for x in (jd["m"] if is_pred else src["m"])]
         if ex is not None:
             rec["raised"] = type(ex).__name__ + ": " + str(ex)[:120]
-            if inversion is not None:
+            if has_inv:
                 rec["inv"] = {"objs": objs_abs}
             rec.update({"res": [], "nres2": [], "chi2map4": [], "sn2": [], "chi2q": OFF, "chi2_fix": OFF, "rchi2_fix": OFF,
                         "nn_fix": OFF, "ll_fix": OFF, "fom_fix": OFF, "res_fix": [], "chi2map_fix": [], "m_fix": []})
             recs.append(rec)
             continue
-        sel = u if mode == "native" else None
-        if junk == 0:
-            refs.setdefault(mode, raw)
-        elif mode in refs:
-            rec["same"] = bool(same_as(raw, refs[mode], sel))
         if mk == "int":
             rec["res"] = ai(raw["residual_map"], 1)
             rec["nres2"] = ai(raw["normalized_residual_map"], 2)
             rec["chi2map4"] = ai(raw["chi_squared_map"], 4)
             rec["sn2"] = ai(raw["signal_to_noise_map"], 2)
-            rff = {k: rec[k] for k in ("p", "h", "w", "u", "mode", "junk", "mk", "d", "e", "sky", "m", "raised", "order", "nth")}
+            rff = {k: rec[k] for k in ("p", "h", "w", "u", "mode", "junk", "mk", "d", "e", "sky", "m", "raised", "order", "nth", "hist", "step")}
             rff.update({"api": "rff", "hasinv": False, "rff": ai(raw["residual_flux_fraction_map"], RFF_DEN, tol=1e-6)})
             c4 = ai([raw["chi_squared"]], 4)[0] if raw["chi_squared"] is not None else OFF
             rec["chi2q"] = c4
@@ -470,7 +583,7 @@ def records_for(src):
         rec["nn_fix"] = fx(raw["noise_normalization"]) if raw["noise_normalization"] is not None else OFF
         rec["ll_fix"] = fx(raw["log_likelihood"]) if raw["log_likelihood"] is not None else OFF
         rec["fom_fix"] = fx(raw["figure_of_merit"]) if raw["figure_of_merit"] is not None else OFF
-        if inversion is not None:
+        if has_inv:
             iv = dict(invrec)
             iv["ev_fix"] = fx(raw["log_evidence"]) if raw["log_evidence"] is not None else OFF
             iv["llreg_fix"] = fx(raw["log_likelihood_with_regularization"]) if raw["log_likelihood_with_regularization"] is not None else OFF
@@ -493,33 +606,72 @@ def _many(srcs):
 # ------------------------------------------------------------------------------------------------------------
 # instance sources
 # ------------------------------------------------------------------------------------------------------------
-def modes_for(h, w, u, junk_fills, light=False):
+def _key(src, seed):
+    """deterministic rotation key of an instance (content and VERIF_SEED, not the order in which TLC printed it)"""
+    import zlib
+
+    txt = repr((src["h"], src["w"], tuple(src["u"]), tuple(src["d"]), tuple(src.get("m", ())), tuple(src["e"]), src["sky"], src["inv"].get("kind"),
+                str(src["inv"].get("FH")), str(src["inv"].get("s")), seed))
+    return zlib.crc32(txt.encode())
+
+
+def make_plan(src, seed, hist=None, both_modes=False):
+    """Which evaluations of an instance are replayed.  Every instance is evaluated in slim mode and in masked-native mode; junk
+    fillings, the apply_mask route, read orders, the second fit on the same dataset object and (for a share, or as TLC says)
+    dataset histories ROTATE over the instances instead of multiplying them."""
+    k = _key(src, seed)
+    h, w, u = src["h"], src["w"], src["u"]
     masked = len(u) < h * w
-    out = [("slim", 0), ("native", 0)]
-    if masked:
-        out += [("slim", 1)] + [("native", j) for j in junk_fills if j != 0]
-    elif not light:
-        out += [("slim", 1)]
-    return out
+    o1, o2 = ORDER_NAMES[k % 4], ORDER_NAMES[(k // 4 + 1 + k % 4) % 4]
+    slim = {"mode": "slim", "junk": (k // 16) % 2, "order": o1, "second": o1 == "twice" and (k // 32) % 2 == 0, "hist": "none"}
+    nat = {"mode": "native", "junk": (k // 64) % 3 if masked else 0, "order": o2, "second": o2 == "twice" and (k // 32) % 2 == 1, "hist": "none"}
+    if src["inv"]["kind"] != "none" and not both_modes:
+        return [dict(slim, junk=0) if (k // 128) % 2 else dict(nat, junk=0)]
+    plan = [slim, nat]
+    plain = src["inv"]["kind"] == "none" and src.get("mk", "int") == "int"
+    if hist is None and plain and (k // 256) % 4 == 0:
+        hist = HIST_KINDS[(k // 1024) % len(HIST_KINDS)]
+    if hist == "derived-by-apply-mask" and not masked:
+        hist = "derived-by-trimming"  # a parent differs from its apply_mask child only if the child masks something
+    if hist is not None and hist != "none" and plain:
+        if hist in SAME_FRAME_KINDS:
+            tgt = plan[(k // 8192) % 2]
+            plan.append(dict(tgt, hist=hist, second=False))
+        else:
+            plan.append({"mode": "slim", "junk": 0, "order": o2, "second": False, "hist": hist})
+    return plan
 
 
-def src_from_tlc(r, k, junk_fills):
+def src_from_tlc(r, k, seed):
     src = {"h": r["h"], "w": r["w"], "u": r["u"], "d": r["d"], "m": r["m"], "e": r["e"], "sky": r["sky"], "mk": "int",
            "inv": {"kind": "none"}, "origin": "tlc"}
+    hist = "none"
+    if r["hist"]:
+        st = r["hist"][0]
+        hist = st["op"]
+        p = pred_dataset(hist, r["h"], r["w"], r["u"], r["d"], r["m"], r["e"])
+        if (p["h"], p["w"], p["u"], p["e"]) != (st["h"], st["w"], st["u"], st["e"]):
+            raise core.MachineryError(f"driver and Fit.tla disagree on the dataset fitted before ({hist}): {p} vs {st}")
     if r["hasinv"]:
         v = r["inv"]
-        P = len(v["s"])
+        kk = _key(src, 0) + len(str(v["FH"]))
         # gamma: matrices at scale sc (1 or 4), reconstruction at scale 2 (dyadic, exact)
         src["inv"] = {"kind": "mock", "objs": [{"p": o["p"], "reg": bool(o["reg"])} for o in v["objs"]], "FH": v["FH"], "H": v["H"],
-                      "s": v["s"], "sc": 4 if k % 2 else 1, "ss": 2 if k % 3 else 1}
-        src["modes"] = [("slim", 0), ("native", 0)]
+                      "s": v["s"], "sc": 4 if kk % 2 else 1, "ss": 2 if kk % 3 else 1}
+    if hist != "none":
+        # the history instance as enumerated by TLC: only the evaluation after the history (the plain evaluations of this
+        # dataset come with its history-free twin)
+        pl = make_plan(src, seed, hist=hist)
+        src["plan"] = [x for x in pl if x["hist"] != "none"]
     else:
-        full_pairs = r["h"] * r["w"] == len(r["u"]) and len(r["u"]) >= 2
-        src["modes"] = modes_for(r["h"], r["w"], r["u"], junk_fills, light=full_pairs)
+        src["plan"] = make_plan(src, seed, hist="none" if (r["h"], r["w"]) in HIST_SHAPES_SEEN else None)
     return src
 
 
-def random_fit_sources(rng, count, max_side, junk_fills):
+HIST_SHAPES_SEEN = set()
+
+
+def random_fit_sources(rng, count, max_side, seed):
     out = []
     for k in range(count):
         h = int(rng.integers(2, max_side + 1))
@@ -533,10 +685,21 @@ def random_fit_sources(rng, count, max_side, junk_fills):
             m[int(rng.integers(0, h * w))] = True
         u = [int(x) for x in np.flatnonzero(m)]
         n = len(u)
-        out.append({"h": h, "w": w, "u": u, "d": [int(x) for x in rng.integers(-2, 4, size=n)], "m": [int(x) for x in rng.integers(-2, 4, size=n)],
-                    "e": [int(x) for x in rng.integers(-1, 2, size=n)], "sky": int(rng.integers(-2, 3)) if n <= 36 else int(rng.integers(-1, 2)), "mk": "int", "inv": {"kind": "none"},
-                    "modes": modes_for(h, w, u, junk_fills), "origin": "random"})
+        src = {"h": h, "w": w, "u": u, "d": [int(x) for x in rng.integers(-2, 4, size=n)], "m": [int(x) for x in rng.integers(-2, 4, size=n)],
+               "e": [int(x) for x in rng.integers(-1, 2, size=n)], "sky": int(rng.integers(-2, 3)) if n <= 36 else int(rng.integers(-1, 2)),
+               "mk": "int", "inv": {"kind": "none"}, "origin": "random"}
+        # larger frames: a history for every second dataset (the trimmed parent stays within the fixed-point range: <= 8x8 parents)
+        hist = HIST_KINDS[(k // 2) % len(HIST_KINDS)] if k % 2 == 0 else "none"
+        if hist == "derived-by-trimming" and (h > 6 or w > 6):
+            hist = "derived-by-apply-mask"
+        src["plan"] = make_plan(src, seed, hist=hist)
+        out.append(src)
     return out
+
+
+def plan_from_modes(src, modes, seed):
+    k = _key(src, seed)
+    return [{"mode": mo, "junk": ju, "order": ORDER_NAMES[(k + j) % 4], "second": False, "hist": "none"} for j, (mo, ju) in enumerate(modes)]
 
 
 def lattice_inversion_source(rng, k):
@@ -584,7 +747,7 @@ def lattice_inversion_source(rng, k):
            "origin": "real-lattice"}
     if not real_model:
         src["m"] = [int(x) for x in rng.integers(-2, 4, size=n)]
-    src["modes"] = [("slim", 0)] if real_model else [("slim", 0), ("native", 0), ("native", 1)]
+    src["modes"] = [("slim", 0)] if real_model else [("slim", 0), ("native", [0, 1, 2][k % 3])]
     return src
 
 
@@ -611,7 +774,7 @@ def generic_inversion_source(rng, k):
 # validation
 # ------------------------------------------------------------------------------------------------------------
 def _describe(rec):
-    s = f"{'residual_flux_fraction_map of ' if rec['api'] == 'rff' else ''}fit[{rec['mode']}, junk={rec['junk']}, model={rec['mk']}, read order={rec.get('order')}, fit #{rec.get('nth')} on its dataset] on {rec['h']}x{rec['w']} u={rec['u']} d={rec['d']} e={rec['e']} sky={rec['sky']}"
+    s = f"{'residual_flux_fraction_map of ' if rec['api'] == 'rff' else ''}fit[{rec['mode']}, junk={rec['junk']}, model={rec['mk']}, read order={rec.get('order')}, fit #{rec.get('nth')} on its dataset, history={rec.get('hist')}/{rec.get('step')}] on {rec['h']}x{rec['w']} u={rec['u']} d={rec['d']} e={rec['e']} sky={rec['sky']}"
     if rec.get("mk") == "int":
         s += f" m={rec.get('m')}"
     if rec["hasinv"]:
@@ -681,26 +844,47 @@ def run(ctx):
         "reg_kinds": [(1, 0), (4, 0), (4, 1)],
         "reconstruction_patterns": [[1, 2, 3, 1], [3, 0, 2, 5]],
         "junk_fills": [0, 1, 2],
+        "history_shapes": [(2, 3)] if quick else [(2, 2), (2, 3), (1, 4)], "history_kinds": list(HIST_KINDS),
         "random_datasets": 250 if quick else 6000, "random_max_side": 6 if quick else 8,
         "real_lattice_inversions": 90 if quick else 1500, "real_generic_inversions": 16 if quick else 120,
     }
     ctx.bounds = b
     patterns = make_patterns(rng, b["patterns"], 12, b["values"], b["noise_exponents"])
-    res = ctx.tlc("Fit", MC_CFG % (b["full_max_unmasked"], S, b["design_matrix_rows"]) + MC_CFG_TAIL, defs=mc_defs(b, patterns), tag="MC_Fit", timeout=3000)
+    cfg = lambda memo, tail=MC_CFG_TAIL: MC_CFG % (b["full_max_unmasked"], S, b["design_matrix_rows"], memo) + tail
+    res = ctx.tlc("Fit", cfg("FALSE"), defs=mc_defs(b, patterns), tag="MC_Fit", timeout=3000)
     insts = res.by_kind("inst")
-    n_fit = sum(1 for r in insts if not r["hasinv"])
-    n_inv = len(insts) - n_fit
+    plain = [r for r in insts if not r["hist"]]
+    n_fit = sum(1 for r in plain if not r["hasinv"])
+    n_inv = len(plain) - n_fit
+    n_hist = len(insts) - len(plain)
     want = expected_fit_instances(b, patterns)
-    per = 2 + len(b["junk_fills"])
-    if n_fit != want or res.distinct != len(insts) * per or n_inv == 0:
-        raise core.MachineryError(f"Fit.tla enumerated {n_fit} fit instances (expected {want}) + {n_inv} with inversion; {res.distinct} states")
+    J = len(b["junk_fills"])
+    # states: instance + its evaluations; per history of a history-shape instance: the state after the earlier fit + evaluations
+    states = len(plain) * (2 + J) + sum(2 + (J if r["hist"][0]["op"] in SAME_FRAME_KINDS else 0) for r in insts if r["hist"])
+    hist_twins = sum(1 for r in plain if not r["hasinv"] and (r["h"], r["w"]) in {tuple(x) for x in b["history_shapes"]})
+    hist_twins = sum(len(b["history_kinds"]) - (1 if len(r["u"]) == r["h"] * r["w"] and "derived-by-apply-mask" in b["history_kinds"] else 0)
+                     for r in plain if not r["hasinv"] and (r["h"], r["w"]) in {tuple(x) for x in b["history_shapes"]})
+    if n_fit != want or res.distinct != states or n_inv == 0 or n_hist != hist_twins:
+        raise core.MachineryError(f"Fit.tla enumerated {n_fit} fit instances (expected {want}) + {n_inv} with inversion + {n_hist} after a "
+                                  f"dataset history (expected {hist_twins}); {res.distinct} states (expected {states})")
+    if not quick:
+        # the design that stores the noise normalization with the dataset object: TLC must exhibit a history that breaks it
+        bm = dict(b, full_shapes=[], inversion_shapes=[], pattern_shapes=b["history_shapes"][:1], layouts=["R2"])
+        bad = ctx.tlc("Fit", cfg("TRUE", "INVARIANT DatasetHistoryNeverMatters\n"), defs=mc_defs(bm, patterns), tag="MC_Fit_memoise", timeout=600, allow_errors=True)
+        if not any("DatasetHistoryNeverMatters" in x for x in bad.errors):
+            raise core.MachineryError(f"Memoise=TRUE was expected to violate DatasetHistoryNeverMatters: {bad.errors[:2]}")
+        ctx.note("Memoise=TRUE (noise normalization stored with the dataset object): TLC exhibits a history violating DatasetHistoryNeverMatters")
     ctx.exhaustive = True
-    srcs = [src_from_tlc(r, k, b["junk_fills"]) for k, r in enumerate(insts)]
-    rnd = random_fit_sources(rng, b["random_datasets"], b["random_max_side"], b["junk_fills"])
+    HIST_SHAPES_SEEN.clear()
+    HIST_SHAPES_SEEN.update(tuple(x) for x in b["history_shapes"])
+    srcs = [src_from_tlc(r, k, ctx.seed) for k, r in enumerate(insts)]
+    rnd = random_fit_sources(rng, b["random_datasets"], b["random_max_side"], ctx.seed)
     real = [lattice_inversion_source(rng, k) for k in range(b["real_lattice_inversions"])]
     gen = [generic_inversion_source(rng, k) for k in range(b["real_generic_inversions"])]
     for sid, sc_ in enumerate(srcs + rnd + real + gen):
         sc_["sid"] = sid
+        if "plan" not in sc_:
+            sc_["plan"] = plan_from_modes(sc_, sc_.pop("modes"), ctx.seed)
     # cheap sources in big groups, real inversions in small ones
     groups = [srcs[k: k + 200] for k in range(0, len(srcs), 200)] + [rnd[k: k + 20] for k in range(0, len(rnd), 20)]
     groups += [real[k: k + 4] for k in range(0, len(real), 4)] + [gen[k: k + 1] for k in range(0, len(gen), 1)]
@@ -708,7 +892,8 @@ def run(ctx):
     for part in core.pmap(_many, groups, chunksize=1):
         recs.extend(part)
     ctx.replayed = len(insts)
-    mid = next(r for r in recs if r["api"] == "fit" and r["_src"]["origin"] == "tlc" and r["mode"] == "native" and r["junk"] == 2 and len(r["u"]) >= 3)
+    mid = next(r for r in recs if r["api"] == "fit" and r["_src"]["origin"] == "tlc" and r["mode"] == "native" and r["junk"] == 2 and len(r["u"]) >= 3
+               and r["hist"] == "none")
     ctx.sample({"tlc_instance_replayed": {k: v for k, v in mid.items() if k not in ("_src", "id")}})
     rl = next(r for r in recs if r["api"] == "fit" and r["_src"]["origin"] == "real-lattice" and any(x is None for x in r["_src"]["inv"]["regs"])
               and any(x is not None for x in r["_src"]["inv"]["regs"]))
@@ -721,6 +906,10 @@ def run(ctx):
     solved = len({r["_src"]["sid"] for r in recs if r["_src"]["inv"]["kind"] == "real"})
     ctx.note(f"{solved} of {len(real) + len(gen)} generated real inversions were solvable by the library's solver (the others are left to C05) and "
              f"contributed records")
+    ctx.note(f"{sum(1 for r in recs if r['api'] == 'fit' and r['hist'] != 'none' and r['step'] > 0)} fits judged after a dataset history "
+             f"({n_hist} histories enumerated by TLC, the others rotated over instances / random datasets; kinds {b['history_kinds']}), "
+             f"{sum(1 for r in recs if r['api'] == 'fit' and r['nth'] == 2)} second fits on an already fitted dataset object, read orders "
+             f"{ {o: sum(1 for r in recs if r['api'] == 'fit' and r['order'] == o) for o in ORDER_NAMES} }")
     ctx.note(f"TLC enumerated {n_fit} datasets x models x skies and {n_inv} inversion cases; {len(recs)} records "
              f"({sum(1 for r in recs if r['mode'] == 'native')} masked-native, {sum(1 for r in recs if r['junk'])} with junk in masked cells, "
              f"{sum(1 for r in recs if r['hasinv'])} with an inversion of which {sum(1 for r in recs if r['hasinv'] and r['_src']['inv']['kind'] == 'real')} "
@@ -740,10 +929,10 @@ def run(ctx):
 
 def replay(ctx, rp):
     src = rp["source"]
-    src["modes"] = [tuple(x) for x in src["modes"]]
     recs = records_for(src)
     want = rp.get("record", {})
-    keep = [r for r in recs if (r["api"], r["mode"], r["junk"], r.get("nth")) == (want.get("api"), want.get("mode"), want.get("junk"), want.get("nth"))] or recs
+    sel = ("api", "mode", "junk", "nth", "hist", "step", "order")
+    keep = [r for r in recs if all(r.get(k) == want.get(k) for k in sel)] or recs
     rej = validate(ctx, keep, "C08-replay")
     print("replayed", len(keep), "records; rejected:", [(r["sig"], r["clauses"]) for r in rej])
     return ctx.finish()
